@@ -179,7 +179,11 @@ func (n *DLQHandlerNode) Nack(msg *Message, nackMetadata NackMetadata) error {
 	writeTime := time.Now()
 	err = n.Handler.Write(msg.Ctx, dlqRecord)
 	if err != nil {
-		return err
+		// A failed DLQ write is terminal (the handler is marked broken below
+		// and the v2 engine tags the same failure fatal): without the tag
+		// the pipeline was restarted with back-off, read the same record,
+		// failed the same write, and so on until the retries ran out.
+		return cerrors.FatalError(err)
 	}
 	n.Timer.Update(time.Since(writeTime))
 	n.Histogram.Observe(dlqRecord)
